@@ -741,10 +741,17 @@ def analyse_searches(prog, F):
                         good = True
                     elif asc == 'desc':
                         detail = 'the comparator at line %d sorts by decreasing weight' % sc.line
+                    elif isinstance(asc, tuple) and asc[0] == 'lossy':
+                        detail = 'comparator at line %d: %s' % (sc.line, asc[1])
+                    elif asc == 'other':
+                        detail = 'the comparator at line %d does not order a lighter candidate before a heavier one in every case' % sc.line
                     else:
-                        detail = 'comparator of the sort at line %d is not a.weight() < b.weight()' % sc.line
+                        undecided_cmp = sc
+                        detail = None
                 if good:
-                    F.add('R02d', n, fn, what, 'ok', 'std::sort(cycles, a.weight() < b.weight()) dominates the construction')
+                    F.add('R02d', n, fn, what, 'ok', 'std::sort(cycles, ascending by weight) dominates the construction')
+                elif detail is None:
+                    F.add('R02d', n, fn, what, 'undecided', 'comparator of the dominating sort is outside the idiom table')
                 else:
                     F.add('R02d', n, fn, what, 'violation', detail, key='R02d|%s|unsorted' % fn.g)
         # R02f hidden-edge heuristic: the hidden set shrinks on every iteration
@@ -796,6 +803,10 @@ def post_dominates_within(cfg, b, entry, loop):
 
 
 def weight_comparator(prog, lam):
+    """'asc' if the comparator returns true whenever a.weight() < b.weight() and false whenever a.weight() > b.weight() (any
+    tie-break), 'desc' for the reverse, ('lossy', why) if the weights are compared through a narrowing conversion, None if the
+    comparator is outside the idiom table"""
+    import itertools
     if lam.k != 'LambdaExpr':
         return None
     res = None
@@ -803,21 +814,81 @@ def weight_comparator(prog, lam):
         lf = prog.fn_of_fref(op)
         if lf is None or len(lf.param_ids) != 2:
             continue
+        a, b = lf.param_ids
         rets = ex.returns_of(lf)
         if len(rets) != 1 or not rets[0].c:
             return None
-        l = minsel.less_of(rets[0].c[0])
-        if l is None:
+        lossy = []
+
+        def diff_var(v):
+            """var holding a.weight() - b.weight() (or reversed): returns +1 / -1, flags narrowing"""
+            d = ex.unique_def(lf, v)
+            if d is None:
+                return None
+            dd = d.strip_all()
+            if dd.k == 'BinaryOperator' and dd.op == '-':
+                x, y = minsel.weight_of(dd.c[0]), minsel.weight_of(dd.c[1])
+                if (x, y) in ((a, b), (b, a)):
+                    vt = prog.base_type(prog.vars[v]['ty']) or {}
+                    wt = prog.base_type(dd.j.get('t')) or {}
+                    if vt.get('int') and wt.get('float'):
+                        lossy.append('the weight difference is stored in `%s %s`: weights that differ by less than 1 compare as equal, so a heavier '
+                                     'candidate may precede a lighter one' % (vt.get('s'), prog.vars[v]['name']))
+                    return 1 if (x, y) == (a, b) else -1
             return None
-        a, b = lf.param_ids
-        if l == (a, b):
-            cur = 'asc'
-        elif l == (b, a):
-            cur = 'desc'
-        else:
-            cur = None
+
+        def atomize(leaf):
+            l = minsel.less_of(leaf)
+            if l == (a, b):
+                return ex.f_atom('lt')
+            if l == (b, a):
+                return ex.f_atom('gt')
+            s_ = leaf.strip_all()
+            if s_.k == 'BinaryOperator' and s_.op in ('<', '>', '!=', '==', '<=', '>=') and s_.c[1].strip_all().cv == 0 and ex.var_of(s_.c[0]) is not None:
+                sg = diff_var(ex.var_of(s_.c[0]))
+                if sg is not None:
+                    lt, gt = ex.f_atom('lt'), ex.f_atom('gt')
+                    if sg < 0:
+                        lt, gt = gt, lt
+                    eq = ex.f_and(ex.f_not(lt), ex.f_not(gt))
+                    return {'<': lt, '>': gt, '!=': ex.f_or(lt, gt), '==': eq, '<=': ex.f_or(lt, eq), '>=': ex.f_or(gt, eq)}[s_.op]
+            le = minsel.leq_of(leaf)
+            if le == (a, b):
+                return ex.f_not(ex.f_atom('gt'))
+            if le == (b, a):
+                return ex.f_not(ex.f_atom('lt'))
+            return None
+
+        def value_formula(e_):
+            s_ = e_.strip_all()
+            if s_.k == 'ConditionalOperator':
+                c_ = ex.formula(s_.cond, lambda leaf: atomize(leaf) or ex.f_atom(('free', leaf.i)))
+                t_, f_ = value_formula(s_.then), value_formula(s_.els)
+                if c_ is None or t_ is None or f_ is None:
+                    return None
+                return ex.f_or(ex.f_and(c_, t_), ex.f_and(ex.f_not(c_), f_))
+            return ex.formula(e_, lambda leaf: atomize(leaf) or ex.f_atom(('free', leaf.i)))
+        f = value_formula(rets[0].c[0])
+        if f is None:
+            return None
+        if lossy:
+            return ('lossy', lossy[0])
+        atoms = ex.f_atoms(f)
+        if 'lt' not in atoms and 'gt' not in atoms:
+            return None
+        free = [x for x in atoms if x not in ('lt', 'gt')]
+        asc = desc = True
+        for vals in itertools.product((False, True), repeat=len(free)):
+            e0 = dict(zip(free, vals))
+            v_lt = ex.f_eval(f, dict(e0, lt=True, gt=False))
+            v_gt = ex.f_eval(f, dict(e0, lt=False, gt=True))
+            if not (v_lt and not v_gt):
+                asc = False
+            if not (v_gt and not v_lt):
+                desc = False
+        cur = 'asc' if asc else ('desc' if desc else 'other')
         if res is not None and res != cur:
-            return None
+            return 'other'
         res = cur
     return res
 
